@@ -298,7 +298,7 @@ def rule_random(F, R):
             try:
                 e = kalg.Conv(g, inline=False).conv(rets[0]["c"][0])
                 A_, B_ = sym(a), sym(b)
-                ok = zero(e - (A_ + B_ / 2) / B_)
+                ok = zero(e - sp.floor((A_ + sp.floor(B_ / 2)) / B_))      # integer arithmetic: both divisions truncate
             except (OutOfFragment, IndexError):
                 ok = False
             R.check(ok, "R-C12-2", "idiv@" + g.key[:60], g.loc(), "idiv(a, b) = (a + b/2) / b (round half up for non-negative operands)", "idiv is no longer (a + b/2) / b")
